@@ -183,8 +183,19 @@ def run_codec(ctx, facts, n):
     """returns (report, rows) with rows = list of (group, command, impl, model)"""
     d = os.path.join(core.WORK, "codec-%s-%d" % (ctx.pid, os.getpid()))
     os.makedirs(d, exist_ok=True)
+    corpus = os.path.join(core.VERIF, "corpus", "codec.txt")
+    ro = getattr(ctx, "replay_obj", None)
+    if ro:
+        # the replayed case goes first, through the corpus mechanism (enc / dec / rt / stream commands)
+        case = next((v for k, v in ro.items() if k.startswith("case") and isinstance(v, str)), None)
+        if case and case.split(" ", 1)[0] in ("enc", "dec", "rt", "stream") and "...(" not in case:
+            corpus = os.path.join(d, "replay-corpus.txt")
+            with open(corpus, "w") as f:
+                f.write(case + "\n")
+                if os.path.exists(os.path.join(core.VERIF, "corpus", "codec.txt")):
+                    f.write(open(os.path.join(core.VERIF, "corpus", "codec.txt")).read())
     rc, rep, out, err = run_harness(["codec", "-seed", str(ctx.seed), "-n", str(n), "-dir", d,
-                                     "-corpus", os.path.join(core.VERIF, "corpus", "codec.txt")], timeout=3000)
+                                     "-corpus", corpus], timeout=3000)
     if rep is None:
         ctx.violation("harness-crash", {"what": "codec suite crashed (a crash of the harness process is a crash of the library code it runs)",
                                         "stdout": tail(out, 15), "stderr": tail(err, 40)}, found_input=False)
